@@ -356,6 +356,24 @@ func clearSelTy(t *abi.Ty) {
 	}
 }
 
+// canonical signature computed from the raw ABI JSON (independent of dig.Input)
+func canonFromJSON(in map[string]any) string {
+	ty, _ := in["type"].(string)
+	comps, _ := in["components"].([]any)
+	if len(ty) >= 5 && ty[:5] == "tuple" {
+		s := "("
+		for i, c := range comps {
+			if i > 0 {
+				s += ","
+			}
+			cm, _ := c.(map[string]any)
+			s += canonFromJSON(cm)
+		}
+		return s + ")" + ty[5:]
+	}
+	return ty
+}
+
 func replayC13(cfg lib.Cfg, out *lib.Out) error {
 	raw, err := os.ReadFile(cfg.Replay)
 	if err != nil {
@@ -378,7 +396,33 @@ func replayC13(cfg lib.Cfg, out *lib.Out) error {
 	if err != nil {
 		return err
 	}
-	fmt.Printf("replay: signature %q hash %x indexed %d\n", d.Event.Signature(), d.Event.SignatureHash(), dig.VerifNumIndexed(d.Event))
+	var rawEv struct {
+		Name   string           `json:"name"`
+		Inputs []map[string]any `json:"inputs"`
+	}
+	if err := json.Unmarshal([]byte(ds.JSON), &rawEv); err != nil {
+		return err
+	}
+	want := rawEv.Name + "("
+	nidx := 0
+	for i, in := range rawEv.Inputs {
+		if i > 0 {
+			want += ","
+		}
+		want += canonFromJSON(in)
+		if ix, _ := in["indexed"].(bool); ix {
+			nidx++
+		}
+	}
+	want += ")"
+	wantHash := abi.Keccak256([]byte(want))
+	ok := true
+	var sig string
+	var sh []byte
+	if p, _ := lib.Catch(func() { sig = d.Event.Signature(); sh = d.Event.SignatureHash() }); p || sig != want || !bytes.Equal(sh, wantHash) {
+		ok = false
+	}
+	fmt.Printf("replay: signature %q (canonical %q) hash %x (keccak %x) indexed %d/%d\n", sig, want, sh, wantHash, dig.VerifNumIndexed(d.Event), nidx)
 	ig, _ := dig.New("ig", d.Event, nil, wpg.Table{Name: "t"}, dig.Notification{}, "")
 	for _, l := range ds.Logs {
 		el := &eth.Log{Address: make([]byte, 20), Data: abi.UnHex(l.Data)}
@@ -388,8 +432,14 @@ func replayC13(cfg lib.Cfg, out *lib.Out) error {
 		var n int
 		var err error
 		p, pmsg := lib.Catch(func() { n, err = dig.VerifGate(ig, el) })
-		fmt.Printf("  %s: rows=%d err=%v panic=%v %s\n", l.What, n, err, p, pmsg)
+		passes := len(el.Topics) == nidx+1 && bytes.Equal(el.Topics[0], wantHash)
+		reached := err != nil || n > 0
+		fmt.Printf("  %s: rows=%d err=%v panic=%v %s (should pass the gate: %v)\n", l.What, n, err, p, pmsg, passes)
+		if p || passes != reached {
+			ok = false
+		}
 	}
-	out.Add(lib.Case{Coq: "CSig [] [] (mkevent [] []) [] 0%nat", Desc: ds, Kind: "replay", OracleOK: false, OracleMsg: "replay (see driver output)"})
+	out.Notes["replay"] = cfg.Replay
+	out.Add(lib.Case{Coq: "CSig [] [] (mkevent [] []) [x40; x41] 0%nat", Desc: ds, Kind: "replay", OracleOK: ok, OracleMsg: "replayed case still fails"})
 	return out.Flush()
 }
